@@ -405,6 +405,9 @@ func (fc *FnCtx) merge(states []*State) *State {
 			if _, isObj := k.(types.Object); isObj {
 				continue
 			}
+			if _, isHeap := k.(heapKey); !isHeap {
+				continue // loop / inlining bookkeeping keys live only inside their construct
+			}
 			// heap key missing somewhere: materialise initial there
 			for _, s := range alive {
 				if _, ok := s.vars[k]; !ok {
